@@ -278,3 +278,80 @@ pub fn check_e2e(rec: &J) -> Verdict {
     }
     Verdict::ok(true)
 }
+
+fn norm_model_names(j: &J) -> J {
+    // model trees carry concrete name tuples; bring them to the case-folded string form `Out` uses without a naming
+    let fold = |a: &J| -> J { J::String(J::Array(a.as_array().unwrap().iter().enumerate().map(|(i, w)| if i == 0 { w.clone() } else { json!(concretise_src(w.as_str().unwrap()).to_lowercase()) }).collect()).to_string()) };
+    match j {
+        J::Object(m) => J::Object(
+            m.iter()
+                .filter(|(k, _)| k.as_str() != "line")
+                .map(|(k, v)| {
+                    let is_node = m.contains_key("e") || m.contains_key("s");
+                    if is_node && matches!(k.as_str(), "n" | "f" | "name") && v.is_array() {
+                        (k.clone(), fold(v))
+                    } else if is_node && k == "ps" {
+                        (k.clone(), J::Array(v.as_array().unwrap().iter().map(|x| fold(x)).collect()))
+                    } else {
+                        (k.clone(), norm_model_names(v))
+                    }
+                })
+                .collect(),
+        ),
+        J::Array(a) => J::Array(a.iter().map(norm_model_names).collect()),
+        x => x.clone(),
+    }
+}
+
+fn tree_matches(exp: &J, obs: &J) -> bool {
+    match (exp, obs) {
+        (J::Object(e), J::Object(o)) => {
+            if e.get("t").map_or(false, |t| t == "unk") || (e.get("t").map_or(false, |t| t == "num") && e.get("c").map_or(false, |c| c == "inexact")) {
+                return o.get("t").map_or(false, |t| t == "num");
+            }
+            if e.get("t").map_or(false, |t| t == "str") {
+                return o.get("t").map_or(false, |t| t == "str") && e.get("s") == o.get("s");
+            }
+            e.len() == o.len() && e.iter().all(|(k, v)| o.get(k).map_or(false, |w| tree_matches(v, w)))
+        }
+        (J::Array(e), J::Array(o)) => e.len() == o.len() && e.iter().zip(o).all(|(a, b)| tree_matches(a, b)),
+        (a, b) => a == b,
+    }
+}
+
+/// Family `verdict`: the recogniser model's verdict on an arbitrary text (accepted with this tree / rejected at this
+/// line) must be the real parser's.
+pub fn check_verdict(rec: &J) -> Verdict {
+    let text = concretise_src(rec["text"].as_str().unwrap());
+    let back = HashMap::new();
+    let got = catch_unwind(AssertUnwindSafe(|| match rrss::frontend::parser::parse(&text) {
+        Ok(p) => Ok(Out { back: &back }.program(&p)),
+        Err(e) => Err(e.to_string()),
+    }));
+    let v = &rec["v"];
+    match got {
+        Err(p) => Verdict::viol(format!("parser panicked: {}", panic_msg(p)), J::Null),
+        Ok(Ok(tree)) => {
+            if v["ok"] != true {
+                return Verdict::viol(format!("accepted, but the recogniser model rejects it at line {}", v["line"]), json!({"tree": tree}));
+            }
+            let want = norm_model_names(&v["tree"]);
+            if tree_matches(&want, &tree) {
+                Verdict::ok(true)
+            } else {
+                Verdict::viol("accepted with a different tree than the recogniser model's".into(), json!({"tree": tree, "model": want}))
+            }
+        }
+        Ok(Err(msg)) => {
+            if v["ok"] == true {
+                return Verdict::viol(format!("rejected ({}) but the recogniser model accepts it", msg), J::Null);
+            }
+            let line = msg.strip_prefix("Parse error (line ").and_then(|r| r.split(')').next()).and_then(|n| n.parse::<i64>().ok());
+            if line == v["line"].as_i64() {
+                Verdict::ok(!text.trim().is_empty())
+            } else {
+                Verdict::viol(format!("rejected with `{}` but the recogniser model says line {}", msg, v["line"]), J::Null)
+            }
+        }
+    }
+}
